@@ -126,6 +126,6 @@ func vrandMain(args []string) int {
 	bip39.VerifSwapRandSource(prev2)
 	out.SourceIsStandInAtEnd = prev2 == vrand.DefaultReader()
 	data, _ := json.Marshal(&out)
-	os.Stdout.Write(data)
+	emitResult(data)
 	return 0
 }
